@@ -30,6 +30,7 @@ func c14(args []string) error {
 	}
 	defer tr.Close()
 	tr.Sync = true
+	tr.Stamp = true
 	vh.InitConfig("c14", nil)
 
 	for sc := 1; sc <= n; sc++ {
@@ -48,6 +49,7 @@ func c14(args []string) error {
 			wg.Add(1)
 			go func() {
 				defer wg.Done()
+				wrng := vh.Rand(int64(sc*1000) + int64(len(w)) + int64(w[len(w)-1]))
 				chans := pause.Subscribe()
 				wstate.Store(w, "idle")
 				tr.Emit(map[string]any{"ev": "sub", "sc": sc, "w": w})
@@ -72,7 +74,7 @@ func c14(args []string) error {
 						tr.Emit(map[string]any{"ev": "woken", "sc": sc, "w": w})
 					case <-workCh:
 						tr.Emit(map[string]any{"ev": "take", "sc": sc, "w": w})
-						time.Sleep(time.Duration(1000+rng.Intn(2000)) * time.Microsecond)
+						time.Sleep(time.Duration(1000+wrng.Intn(2000)) * time.Microsecond)
 					}
 				}
 			}()
@@ -140,9 +142,27 @@ func c14(args []string) error {
 			// sees the pause signal if there is one (with work always ready, Go's select may keep
 			// choosing the work case, which the statement allows until the worker has acknowledged)
 			feedOn.Store(false)
-			time.Sleep(20 * time.Millisecond)
-			ws := map[string]string{}
-			wstate.Range(func(k, v any) bool { ws[k.(string)] = v.(string); return true })
+			// wait (bounded) until the workers have settled: timers in this sandbox can fire tens of
+			// milliseconds late, so a fixed sleep is not a quiescence criterion
+			var ws map[string]string
+			for i := 0; i < 200; i++ {
+				time.Sleep(5 * time.Millisecond)
+				ws = map[string]string{}
+				wstate.Range(func(k, v any) bool { ws[k.(string)] = v.(string); return true })
+				p := pause.IsPaused()
+				settled := i >= 3
+				for _, st := range ws {
+					if st == "exited" {
+						continue
+					}
+					if p != (st == "acked") {
+						settled = false
+					}
+				}
+				if settled {
+					break
+				}
+			}
 			tr.Emit(map[string]any{"ev": "snap", "sc": sc, "paused": pause.IsPaused(), "exp": exp, "ws": ws})
 			feedOn.Store(true)
 		}
